@@ -100,4 +100,86 @@ def target_type_requirements_for_field():
     return pyvc.collect(paths, "_check_type_requirements_for_field"), sum(1 for p in paths if p.covered)
 
 
-TARGETS = {"_check_type_requirements_for_field": target_type_requirements_for_field}
+def _engine():
+    cons = importlib.import_module(CN)
+    ir_util = importlib.import_module("compiler.util.ir_util")
+    error = importlib.import_module("compiler.util.error")
+    ir_data_utils = importlib.import_module("compiler.util.ir_data_utils")
+    eng = pyvc.Engine()
+    eng.contract(error.error, lambda interp, f, loc, msg: ("ERROR", loc, msg), "error.error")
+    eng.contract(ir_util.find_object, lambda interp, ref, ir: ref.f["ghost_object"], "find_object")
+    eng.contract(cons._render_type, lambda interp, *a, **k: "<type>", "_render_type")
+    eng.identity(ir_data_utils.reader)
+    return cons, ir_util, eng
+
+
+def target_allowed_in_bits():
+    """constraints._check_allowed_in_bits: an atomic type whose definition is byte-oriented, used inside a bit-oriented
+    (bits) definition -> exactly one "Byte-oriented ... cannot be used in a bits field" error at the type; bit-oriented
+    members, and any member of a byte-oriented structure -> nothing; a non-atomic (array) type -> nothing here (its element
+    type is visited on its own: catalogue rows *-array-member-in-bits of the bounded part)."""
+    cons, ir_util, eng = _engine()
+    ir_data = importlib.import_module("compiler.util.ir_data")
+    AU = ir_data.AddressableUnit
+
+    def harness(c):
+        outer = c.choice("enclosing", ["BIT", "BYTE"])
+        kind = c.choice("member-type", ["atomic-BIT", "atomic-BYTE", "array"])
+        type_def = SRec("TypeDefinition", {"addressable_unit": getattr(AU, outer)})
+        if kind == "array":
+            type_ir = SRec("Type", {"source_location": ("LOC", "t")}, defaults={"has:atomic_type": False})
+        else:
+            ref_def = SRec("TypeDefinition", {"addressable_unit": getattr(AU, kind.split("-")[1])})
+            type_ir = SRec("Type", {"source_location": ("LOC", "t"), "atomic_type": SRec("AtomicType", {"reference": SRec("Reference", {"ghost_object": ref_def})})}, defaults={"has:atomic_type": True})
+        errors = []
+        c.covered = True
+        pyvc.run_body(c, CN + "._check_allowed_in_bits", [type_ir, type_def, "m.emb", "IR", errors])
+        want = outer == "BIT" and kind == "atomic-BYTE"
+        ok = (len(errors) == 1 and len(errors[0]) == 1 and errors[0][0][0] == "ERROR" and errors[0][0][1] == ("LOC", "t") and "cannot be used in a bits field" in errors[0][0][2]) if want else errors == []
+        c.oblige("one-error-iff-byte-oriented-atomic-member-of-bits", ok, detail=repr(errors)[:200])
+    paths = eng.explore(harness)
+    return pyvc.collect(paths, "_check_allowed_in_bits"), sum(1 for p in paths if p.covered)
+
+
+def target_array_rules():
+    """constraints._check_that_inner_array_dimensions_are_constant and _check_that_array_base_types_are_fixed_size:
+       inner dimension omitted -> one "can only be omitted for the outermost dimension" error; given but not constant -> one
+       "must be constant" error; constant -> nothing;
+       element type an array -> nothing here (checked on the inner array); atomic with an explicit size -> nothing; atomic
+       without one -> one "Array elements must be fixed size" error iff the element type has no fixed size."""
+    cons, ir_util, eng = _engine()
+    attributes = importlib.import_module("compiler.front_end.attributes")
+    const = {}
+    eng.contract(ir_util.is_constant, lambda interp, e: e.f["ghost_constant"], "is_constant")
+    eng.contract(ir_util.get_integer_attribute, lambda interp, attrs, name, default_value=None: attrs["fixed"] if name == attributes.FIXED_SIZE else None, "get_integer_attribute")
+
+    def harness(c):
+        which = c.choice("function", ["inner-dimensions", "base-type"])
+        errors = []
+        c.covered = True
+        if which == "inner-dimensions":
+            size = c.choice("inner-size", ["automatic", "constant", "run-time"])
+            tf = {"which_size": "automatic" if size == "automatic" else "element_count"}
+            tf["element_count"] = SRec("Expression", {"source_location": ("LOC", "count"), "ghost_constant": size == "constant"})
+            pyvc.run_body(c, CN + "._check_that_inner_array_dimensions_are_constant", [SRec("ArrayType", tf), "m.emb", errors])
+            msg = {"automatic": "can only be omitted for the outermost dimension", "run-time": "Inner array dimensions must be constant"}.get(size)
+            ok = (errors == []) if msg is None else (len(errors) == 1 and len(errors[0]) == 1 and errors[0][0][1] == ("LOC", "count") and msg in errors[0][0][2])
+            c.oblige("inner-dimension:one-error-iff-omitted-or-not-constant", ok, detail=repr(errors)[:200])
+            return
+        base = c.choice("element-type", ["array", "atomic-with-explicit-size", "atomic-of-fixed-size-type", "atomic-of-variable-size-type"])
+        if base == "array":
+            bt = SRec("Type", {}, defaults={"has:array_type": True, "has:atomic_type": False, "has:size_in_bits": False})
+        else:
+            fixed = SInt(z3.Int("fixed_size")) if base == "atomic-of-fixed-size-type" else None
+            obj = SRec("TypeDefinition", {"attribute": {"fixed": fixed}})
+            bt = SRec("Type", {"atomic_type": SRec("AtomicType", {"reference": SRec("Reference", {"ghost_object": obj}), "source_location": ("LOC", "elem")})},
+                      defaults={"has:array_type": False, "has:atomic_type": True, "has:size_in_bits": base == "atomic-with-explicit-size"})
+        pyvc.run_body(c, CN + "._check_that_array_base_types_are_fixed_size", [SRec("ArrayType", {"base_type": bt}), "m.emb", errors, "IR"])
+        want = base == "atomic-of-variable-size-type"
+        ok = (len(errors) == 1 and len(errors[0]) == 1 and errors[0][0][1] == ("LOC", "elem") and "Array elements must be fixed size" in errors[0][0][2]) if want else errors == []
+        c.oblige("element-type:one-error-iff-atomic-without-any-fixed-size", ok, detail=repr(errors)[:200])
+    paths = eng.explore(harness)
+    return pyvc.collect(paths, "array-rules"), sum(1 for p in paths if p.covered)
+
+
+TARGETS = {"_check_type_requirements_for_field": target_type_requirements_for_field, "_check_allowed_in_bits": target_allowed_in_bits, "array_rules": target_array_rules}
